@@ -147,6 +147,7 @@ type World struct {
 	proxyUp   bool
 	authUp    bool
 	BootErr   error
+	reqSerial int
 	// LoaderPanic is set when the configuration loader crashed instead of returning an error.
 	LoaderPanic string
 
